@@ -26,6 +26,12 @@ func c11Bases(seed int64, thorough bool) []*e2eCase {
 	}
 	mk(true, true, 4, true, []int64{20000, 300}, 1, 4096)
 	mk(false, false, 2, false, []int64{15000}, 1, 4096)
+	// a directory sent as one archive stream (protocol 4, no overwrite): sub files that shrink
+	mk(true, true, 4, false, []int64{60000, 300}, 1, 4096)
+	res[len(res)-1].Opts.Directory = true
+	for i := range res[len(res)-1].Nodes {
+		res[len(res)-1].Nodes[i].Rel = "tree/" + res[len(res)-1].Nodes[i].Rel
+	}
 	if thorough {
 		mk(false, true, 4, true, []int64{9000, 9000}, 1, 4096)
 		mk(true, false, 3, false, []int64{15000}, 0, 4096)
@@ -78,7 +84,8 @@ func c11Hang(d *vCtx) error {
 				}
 			}
 			for _, m := range w {
-				if m.Typ == "DATA" && (m.K%2 == 1 || thorough) {
+				// the source shrinks after the scan: at the name / size announcement (before it is read) and mid-data
+				if m.Typ == "NAME" || m.Typ == "NUM" || (m.Typ == "DATA" && (m.K%2 == 1 || thorough)) {
 					jobs = append(jobs, job{c, e2ePlan{Shrink: &e2eSil{Dir: m.Dir, K: m.G}, CheckLeft: true}})
 				}
 			}
